@@ -19,9 +19,12 @@ import Grass.Generated.ModuleAliases
   Values are opaque tokens (`Val = Nat`), identifiers are `List Char` *after* `Identifier`
   normalisation (`norm`).  Member bodies are trivial: a function returns a constant naming itself
   and its module (or the current value of one of its module's variables), a mixin emits a marker.
-  Paths: a project is one directory; the canonical path of a module is its base name (the file is
-  `name.scss` or the partial `_name.scss`); a URL names a base with or without a leading `_`
-  (`./`, and an explicit `.scss` do not matter for this core — C13 owns file lookup).
+  Paths: a source file is identified by its canonical path — what `Fs::canonicalize` returns for it
+  (`ModSrc.path`, components, the last one the file stem; `_a` for the partial `_a.scss`).  A URL
+  (`Url`) is resolved from the directory of the importing file's canonical path, then from every load
+  path, `name` before `_name` (`candidates`, `resolve`); canonicalisation is the identity (in-memory
+  Fs, the trait's default) or lexical (real disk).  Index files, other extensions and `.import` files
+  are C13's and not modelled; module file names contain no `_` except the partial marker.
 
   Deviations of the code from the property are explicit switches (`Switches`); the theorems are
   about `Switches.spec`, the correspondence runs against `Switches.now`.
@@ -301,10 +304,27 @@ def Cfg.leftover (c : Cfg) : Bool := !(c.isEmpty || !c.explicit)
 
 /-! ### sources -/
 
+/-- A path: its components (`..` is kept as a component, `.` is dropped — `Path::components`). -/
+abbrev FsPath := List Ident
+
+/-- The URL of a `@use`/`@forward` together with the static context it is resolved in. -/
 structure Url where
+  /-- directory of the importing file: the parent of its *canonical* path (`current_import_path`) -/
+  dir : FsPath
+  /-- directory part of the URL as written (`../x`, `x/..`, …) -/
+  segs : FsPath
   base : Ident
   underscore : Bool          -- spelled with a leading `_`
+  /-- spelled with `.scss`: load paths are then not consulted (visitor.rs:844 `// todo`) -/
+  ext : Bool
+  /-- `Options::load_paths`, in order -/
+  loadPaths : List FsPath
+  /-- what `Fs::canonicalize` does: `false` = the identity (the trait's default, the in-memory Fs),
+      `true` = `..` is resolved lexically (the real disk without symlinks) -/
+  lexical : Bool
   deriving DecidableEq, Repr, Inhabited
+
+def Url.flat (base : Ident) (underscore : Bool) : Url := ⟨[], [], base, underscore, false, [], false⟩
 
 inductive UseNs where
   | dflt | named (n : Ident) | star
@@ -330,18 +350,40 @@ inductive Stmt where
   | pkeys (id : Nat) (k : Kind) (ns : Ident)
   deriving DecidableEq, Repr, Inhabited
 
+/-- A source file. `name` identifies it in traces and in the cache; `path` is its canonical path —
+    what `Fs::canonicalize` returns for it — as components, the last one being the file stem
+    (`_a` for the partial `_a.scss`).  "The same module" means: the same canonical path. -/
 structure ModSrc where
   name : Ident
-  partialFile : Bool
+  path : FsPath
   body : List Stmt
   deriving DecidableEq, Repr, Inhabited
 
+def ModSrc.flat (name : Ident) (partialFile : Bool) (body : List Stmt) : ModSrc :=
+  ⟨name, [if partialFile then '_' :: name else name], body⟩
+
 abbrev Project := List ModSrc
 
-/-- `find_import` restricted to one directory (visitor.rs:809): `name` finds `name.scss` or
-    `_name.scss`; `_name` finds only the partial. -/
+/-- lexical resolution of `..` -/
+def normPath : FsPath → FsPath → FsPath
+  | acc, [] => acc.reverse
+  | acc, c :: rest => if c = ['.', '.'] then normPath (acc.drop 1) rest else normPath (c :: acc) rest
+
+/-- the literal paths `find_import` probes, in order (visitor.rs:809; `.scss` only, no index files):
+    relative to the importing file first — the file, then the partial — then every load path -/
+def candidates (u : Url) : List FsPath :=
+  let stem : Ident := if u.underscore then '_' :: u.base else u.base
+  let dirs := (u.dir ++ u.segs) :: (if u.ext then [] else u.loadPaths.map (· ++ u.segs))
+  dirs.flatMap fun d => [d ++ [stem], d ++ [('_' :: stem)]]
+
+/-- `find_import` + `Fs::canonicalize` (visitor.rs:898): the first candidate that is a file; the
+    module is the one with that canonical path.  On the in-memory Fs a literal path is a file iff it
+    is a key (component-wise), and canonicalisation is the identity; on the real disk (no symlinks,
+    every directory mentioned exists) iff its lexical normal form is a file. -/
 def resolve (proj : Project) (u : Url) : Option ModSrc :=
-  proj.find? fun m => m.name == u.base && (!u.underscore || m.partialFile)
+  (candidates u).findSome? fun c =>
+    let canon := if u.lexical then normPath [] c else c
+    proj.find? fun m => m.path == canon
 
 /-- Namespaced references to private names are rejected by the parser (`assert_public`). -/
 def Stmt.privateRef : Stmt → Bool
@@ -482,22 +524,31 @@ def lookupMember (sw : Switches) (env : Env) (st : St) (k : Kind) (ns : Option I
 
 abbrev LoadF := Url → Cfg → St → Out (Nat × Cfg)
 
+def removeAll : List Ident → Cfg → Cfg
+  | [], c => c
+  | n :: ns, c => removeAll ns (c.remove n).2
+
 /-- `remove_used_configuration` (visitor.rs:389) -/
 def removeUsed (upstream downstream : Cfg) (except_ : List Ident) : Cfg :=
   let dk := downstream.keys
-  (upstream.keys.filter fun n => !except_.contains n && !dk.contains n).foldl
-    (fun c n => (c.remove n).2) upstream
+  removeAll (upstream.keys.filter fun n => !except_.contains n && !dk.contains n) upstream
 
-/-- `add_forward_configuration` (visitor.rs:343), without the panic case. -/
+/-- the loop of `add_forward_configuration` (visitor.rs:350): a guarded (`!default`) entry takes
+    the value the incoming configuration has for it (and removes it there), any other entry its own -/
+def fwdCfgLoop : List (Ident × Val × Bool) → Cfg → List (Ident × Val) → Cfg × List (Ident × Val)
+  | [], adj, nv => (adj, nv)
+  | e :: rest, adj, nv =>
+    if e.2.2 then
+      match adj.remove e.1 with
+      | (some old, adj') => fwdCfgLoop rest adj' (setAssoc nv e.1 old)
+      | (none, adj') => fwdCfgLoop rest adj' (setAssoc nv e.1 e.2.1)
+    else fwdCfgLoop rest adj (setAssoc nv e.1 e.2.1)
+
+/-- `add_forward_configuration` (visitor.rs:343): the new configuration starts as a copy of what is
+    visible of the incoming one (`values.iter()`, map_view.rs:24 = `keys().filter_map(get)`). -/
 def addForwardCfg (adj : Cfg) (cfg : List (Ident × Val × Bool)) : Cfg × Cfg :=
   let start : List (Ident × Val) := adj.keys.filterMap fun k => (adj.get k).map fun v => (k, v)
-  let r := cfg.foldl (fun (acc : Cfg × List (Ident × Val)) e =>
-      let (adj, nv) := acc
-      if e.2.2 then
-        match adj.remove e.1 with
-        | (some old, adj') => (adj', setAssoc nv e.1 old)
-        | (none, adj') => (adj', setAssoc nv e.1 e.2.1)
-      else (adj, setAssoc nv e.1 e.2.1)) (adj, start)
+  let r := fwdCfgLoop cfg adj start
   -- explicit iff the incoming configuration is explicit or (now, after the guarded removals) empty
   (r.1, { base := r.2, layers := [], explicit := r.1.explicit || r.1.isEmpty })
 
@@ -675,6 +726,11 @@ def nCss (ss : List Stmt) : Nat := (ss.filter fun s => s == Stmt.css).length
 def Project.wf (p : Project) : Bool :=
   decide (p.map (·.name)).Nodup && p.all fun m => decide (nCss m.body ≤ 1)
 
+/-- names and canonical paths identify each other (what the generator promises in addition; the
+    cache and the active set of the code are keyed by the canonical path, those of the model by the
+    name) -/
+def Project.pathsDistinct (p : Project) : Bool := decide (p.map (·.path)).Nodup
+
 /-! ### built-in modules and their global aliases (tables generated from builtin/modules/*.rs and
     builtin/functions/**.rs by tools/translate_module_aliases.py) -/
 
@@ -721,8 +777,15 @@ def rdId (s : String) : Ident := if s == "-" then [] else norm s.toList
 def rdIds (s : String) : List Ident := if s == "-" then [] else (s.splitOn ",").map rdId
 def rdKind (s : String) : Option Kind :=
   if s == "v" then some .var else if s == "f" then some .fn else if s == "m" then some .mixin else none
-def rdUrl (s : String) : Url :=
-  if s.startsWith "_" then ⟨norm (s.drop 1).toString.toList, true⟩ else ⟨norm s.toList, false⟩
+def rdPath (s : String) : FsPath := if s == "-" || s == "" then [] else (s.splitOn "/").map (·.toList)
+/-- `<E|N>:<segs a/b/..>:<stem>` in the context (importer directory, load paths, canonicalisation) -/
+def rdUrl (dir : FsPath) (lps : List FsPath) (lexical : Bool) (s : String) : Option Url :=
+  match s.splitOn ":" with
+  | [e, segs, stem] =>
+    let us := stem.startsWith "_"
+    let base := norm (if us then (stem.drop 1).toString.toList else stem.toList)
+    some ⟨dir, rdPath segs, base, us, e == "E", lps, lexical⟩
+  | _ => none
 def rdVis (s : String) : Option Vis :=
   match s.splitOn ":" with
   | ["A"] => some .all
@@ -748,7 +811,7 @@ def rdTriples : Nat → List String → Option (List (Ident × Val × Bool) × L
   | _, _ => none
 
 /-- one statement from the token stream; prefix strings are *not* normalised (`String` in the AST) -/
-def rdStmt : List String → Option (Stmt × List String)
+def rdStmt (rdU : String → Option Url) : List String → Option (Stmt × List String)
   | "V" :: n :: v :: g :: ts => do pure (.var (rdId n) (← v.toNat?) (← parseBool? g), ts)
   | "F" :: n :: b :: ts => some (.fn (rdId n) (if b == "-" then .const else .getter (rdId b)), ts)
   | "X" :: n :: ts => some (.mixin (rdId n), ts)
@@ -758,32 +821,34 @@ def rdStmt : List String → Option (Stmt × List String)
     let k ← k.toNat?
     let (ps, ts') ← rdPairs k ts
     let ns := if ns == "=" then UseNs.dflt else if ns == "*" then .star else .named (rdId ns)
-    pure (.use (rdUrl u) ns ps, ts')
+    pure (.use (← rdU u) ns ps, ts')
   | "W" :: u :: p :: vis :: k :: ts => do
     let k ← k.toNat?
     let vis ← rdVis vis
     let (ps, ts') ← rdTriples k ts
-    pure (.forward (rdUrl u) ⟨if p == "-" then none else some p.toList, vis⟩ ps, ts')
+    pure (.forward (← rdU u) ⟨if p == "-" then none else some p.toList, vis⟩ ps, ts')
   | "A" :: ns :: n :: v :: g :: ts => do pure (.assign (rdId ns) (rdId n) (← v.toNat?) (← parseBool? g), ts)
   | "P" :: i :: g :: k :: ns :: n :: ts => do
     pure (.probe (← i.toNat?) (← parseBool? g) (← rdKind k) (if ns == "-" then none else some (rdId ns)) (rdId n), ts)
   | "K" :: i :: k :: ns :: ts => do pure (.pkeys (← i.toNat?) (← rdKind k) (rdId ns), ts)
   | _ => none
 
-def rdStmts : Nat → List String → Option (List Stmt × List String)
+def rdStmts (rdU : String → Option Url) : Nat → List String → Option (List Stmt × List String)
   | 0, ts => some ([], ts)
   | n + 1, ts => do
-    let (s, ts1) ← rdStmt ts
-    let (r, ts2) ← rdStmts n ts1
+    let (s, ts1) ← rdStmt rdU ts
+    let (r, ts2) ← rdStmts rdU n ts1
     pure (s :: r, ts2)
 
-def rdMods : Nat → List String → Option (Project × List String)
+/-- `M <name> <canonical path a/b/_stem> <k> stmt…`; the URLs in the body are resolved from the
+    parent of the canonical path -/
+def rdMods (lps : List FsPath) (lexical : Bool) : Nat → List String → Option (Project × List String)
   | 0, ts => some ([], ts)
-  | n + 1, "M" :: name :: part :: k :: ts => do
+  | n + 1, "M" :: name :: path :: k :: ts => do
     let k ← k.toNat?
-    let p ← parseBool? part
-    let (ss, ts1) ← rdStmts k ts
-    let (r, ts2) ← rdMods n ts1
+    let p := rdPath path
+    let (ss, ts1) ← rdStmts (rdUrl p.dropLast lps lexical) k ts
+    let (r, ts2) ← rdMods lps lexical n ts1
     pure (⟨rdId name, p, ss⟩ :: r, ts2)
   | _, _ => none
 
@@ -812,14 +877,15 @@ def outStr (o : Out Unit) : String :=
   | .error e => s!"err {errStr e} once={once} entered={ent} | {evs}"
 
 def handle : List String → String
-  -- run <switches> <entry> <nmods> M …
-  | "run" :: sw :: entry :: n :: ts =>
-    match rdSwitches sw, n.toNat? with
-    | some sw, some n =>
-      match rdMods n ts with
-      | some (proj, []) => if proj.wf then outStr (run sw proj (rdId entry)) else "unsupported"
+  -- run <switches> <entry> <lexical 0|1> <load paths a/b,c or -> <nmods> M …
+  | "run" :: sw :: entry :: lex :: lps :: n :: ts =>
+    match rdSwitches sw, n.toNat?, parseBool? lex with
+    | some sw, some n, some lex =>
+      let lps := if lps == "-" then [] else (lps.splitOn ",").map rdPath
+      match rdMods lps lex n ts with
+      | some (proj, []) => if proj.wf && proj.pathsDistinct then outStr (run sw proj (rdId entry)) else "unsupported"
       | _ => "bad-op"
-    | _, _ => "bad-op"
+    | _, _, _ => "bad-op"
   -- once <enters,…> <css,…>: P̂ of loads-once on observed lists
   | ["once", a, b] => "ok " ++ boolStr (onceOK (rdIds a) (rdIds b))
   -- private <name>: is the (raw) name private after normalisation
@@ -835,6 +901,10 @@ def handle : List String → String
   | ["aliases"] =>
     "ok " ++ " ".intercalate (Grass.Generated.moduleTable.flatMap fun e =>
       (builtinAliases e.1 e.2.1).map fun g => s!"{e.1}.{e.2.1}={g}")
+  -- only: module members without a global alias
+  | ["only"] =>
+    "ok " ++ " ".intercalate ((Grass.Generated.moduleTable.filter fun e => (builtinAliases e.1 e.2.1).isEmpty).map
+      fun e => s!"{e.1}.{e.2.1}")
   | _ => "bad-op"
 
 end Grass.Module
